@@ -200,7 +200,7 @@ finishUp:
 		}
 		e := 0
 		for ; p < len(data) && (data[p] >= '0' && data[p] <= '9'); p++ {
-			if e < 10000 {
+			if e < 100000000 {
 				e = e*10 + int(data[p]) - '0'
 			}
 		}
@@ -308,7 +308,7 @@ func (a *decimal) set(data []byte) (ok bool) {
 			if data[i] < '0' || data[i] > '9' {
 				break
 			}
-			if e < 10000 {
+			if e < 100000000 {
 				e = e*10 + int(data[i]) - '0'
 			}
 		}
